@@ -4,17 +4,17 @@ CONSTANTS
  LocalNames = {"x", "a"}
  FreeNames = {}
  Top = {"b"}
- MaxParams = 0
+ MaxParams = 1
  MaxDecl = 1
  Start <- StartAB
  Cont <- ContABC
  DReserved = {"aa"}
- AllowWith = TRUE
+ AllowWith = FALSE
  AllowVars = FALSE
  MaxUses = 1
- AllowFlat = FALSE
- MoveAfterRename = FALSE
+ AllowFlat = TRUE
+ MoveAfterRename = TRUE
  OldWith = FALSE
  RestoreOwn = FALSE
-INVARIANTS FlagAsMeant StackDepth CaptureFree NoCollision PublicUnchanged NoReserved WithOwn WithCross Emit
+INVARIANTS CaptureFree
 CHECK_DEADLOCK FALSE
